@@ -93,6 +93,10 @@ func (s *Sock) pollMask() uint32 {
 	}
 	if s.writable() {
 		m |= unix.EPOLLOUT
+	} else {
+		// as tcp_poll does: polling a socket that is not writable arms
+		// SOCK_NOSPACE, so that the next time room appears is a wake-up edge
+		s.nospace = true
 	}
 	if s.rcvFin || s.reset {
 		m |= unix.EPOLLRDHUP
